@@ -5,6 +5,17 @@ props = [json.loads(l) for l in open(os.path.join(V, "properties.jsonl"))]
 claims = json.load(open(os.path.join(V, "tools", "claims.json")))
 groups = json.load(open(os.path.join(V, "tools", "groups.json")))
 posts = json.load(open(os.path.join(V, "tools", "post_checks.json")))
+
+
+def variants(pid):
+    g = groups.get(pid, "main")
+    return g if isinstance(g, list) else [g]
+
+
+def ename(g):
+    return "pyvc" if g == "main" else "pyvc-%s" % g
+
+
 checks = []
 na = []
 for p in props:
@@ -18,7 +29,7 @@ for p in props:
         thorough_cmd="./check %s --tier thorough" % p["id"],
         evidence_file="/verif/evidence/%s.json" % p["id"],
         replay_cmd_template="./check %s --replay {path}" % p["id"],
-        engine="pyvc" if groups.get(p["id"], "main") == "main" else "pyvc-%s" % groups[p["id"]],
+        engine="+".join(ename(g) for g in variants(p["id"])),
         level_claimed=dict(category="proof", text=c["text"], design_ref="DESIGN.md section 5, %s" % p["id"]),
         level_note=c["note"] + ("; BOUNDED native post-checks on the real code (never counted as proved): " + ", ".join(sorted(set(x["script"] for x in posts[p["id"]]))) if p["id"] in posts else ""),
         technique="contract-based deductive verification: sidecar contracts on the real functions, VCs generated from the /repo AST (pyvc) and discharged by z3/cvc5",
@@ -28,11 +39,11 @@ m = dict(
     setup_cmd="python3-vt -m compileall -q pyvc && python3-vt -c \"import z3; print('z3', z3.get_version_string())\"",
     hooks=dict(guard="FLUMINE_VERIF", enable="no hooks: contracts are sidecar files under /verif/contracts keyed by qualified function name; nothing in /repo is edited or instrumented",
                baseline_off_cmd="cd /repo && /venv/bin/python -m pytest -ra -q -p no:cacheprovider --timeout=900 --continue-on-collection-errors", source_commits=[], add_only=True),
-    engines=[dict(name="pyvc" if g == "main" else "pyvc-%s" % g, path="/verif/pyvc" if g == "main" else "/verif/groups/%s/pyvc" % g,
-                  serves_properties=[c["property_id"] for c in checks if groups.get(c["property_id"], "main") == g],
+    engines=[dict(name=ename(g), path="/verif/pyvc" if g == "main" else "/verif/groups/%s/pyvc" % g,
+                  serves_properties=[c["property_id"] for c in checks if g in variants(c["property_id"])],
                   kind_free_text="verification-condition generator over the real Python AST (symbolic execution per path, loop invariants, modular calls against sidecar contracts, heap as per-field arrays) + SMT discharge (z3 5.1 API, cvc5 1.0.3 / z3 4.8.12 CLI fall-backs)"
                   + ("" if g == "main" else "; variant of /verif/pyvc in which this group's contracts were developed (DESIGN 10.5), sidecars in /verif/groups/%s/contracts" % g))
-             for g in ["main"] + sorted(set(v for k, v in groups.items() if not k.startswith("_") and v != "main"))],
+             for g in ["main"] + sorted(set(v for k in groups if not k.startswith("_") for v in variants(k) if v != "main"))],
     checks=checks,
     notes="exit codes of ./check: 0 held / 1 VIOLATION / 2 UNDECIDED (unknown, engine limit; never reported as a violation) / 3 engine failure. Known genuine defects are listed in known_findings.json and printed as KNOWN-FINDING lines.",
     not_applicable=na,
